@@ -9,6 +9,11 @@
 // copy's Acked()/Nacked() channels.  The harness waits until nothing is in flight any more (liveness bound 30 s), then
 // closes everything and checks that the goroutines are gone.
 //
+// A stage may emit 2..3 output messages per input (shape `…x<w>`): output #j of lineage l carries the derived lineage
+// l*w+j, all outputs are returned by the handler together (the Router hands them to ONE Publish call); the sink must
+// see every derived lineage.  Publisher faults are keyed by (stage, publisher call) and, kind px, by
+// (stage, k-th handler invocation, output position): the call that contains that output is refused.
+//
 //	REQ pl <shape> <N> b<buf>k<blocking>p<persistent> r<routers>d<decorator>t<tap> <yield> <seed> <faults> <event>*
 //	OBS ok | stuck
 //
@@ -38,13 +43,15 @@ import (
 // ---------------------------------------------------------------- configuration of one case
 
 type faultSpec struct {
-	kind  string // he hp pe pp pa
+	kind  string // he hp pe pp pa px
 	stage int
-	call  int // 1-based: the call-th handler invocation (he, hp) / publisher call (pe, pp, pa) of that stage
+	call  int // 1-based: the call-th handler invocation (he, hp, px) / publisher call (pe, pp, pa) of that stage
+	pos   int // px only: the output position whose Publish call is refused
 }
 
 type caseCfg struct {
 	shape      [][]int // successor stages of every handler stage; the sink is stage len(shape)
+	widths     []int   // outputs per input of every stage (nil = all 1)
 	nmsgs      int
 	buf        int
 	blocking   bool
@@ -64,7 +71,7 @@ func b01(x bool) string {
 	return "0"
 }
 
-func shapeString(sh [][]int) string {
+func shapeString(sh [][]int, widths ...int) string {
 	if len(sh) == 0 {
 		return "-"
 	}
@@ -75,8 +82,27 @@ func shapeString(sh [][]int) string {
 			xs[j] = strconv.Itoa(t)
 		}
 		rows[i] = strings.Join(xs, ",")
+		if i < len(widths) && widths[i] > 1 {
+			rows[i] += "x" + strconv.Itoa(widths[i])
+		}
 	}
 	return strings.Join(rows, "/")
+}
+
+func (c caseCfg) width(s int) int {
+	if s < len(c.widths) && c.widths[s] > 1 {
+		return c.widths[s]
+	}
+	return 1
+}
+
+// leaves is the number of derived lineages per source lineage at the sink.
+func (c caseCfg) leaves() int {
+	p := 1
+	for s := range c.shape {
+		p *= c.width(s)
+	}
+	return p
 }
 
 func (c caseCfg) String() string {
@@ -85,30 +111,43 @@ func (c caseCfg) String() string {
 		xs := make([]string, len(c.faults))
 		for i, f := range c.faults {
 			xs[i] = fmt.Sprintf("%s@%d.%d", f.kind, f.stage, f.call)
+			if f.kind == "px" {
+				xs[i] += "." + strconv.Itoa(f.pos)
+			}
 		}
 		fs = strings.Join(xs, ",")
 	}
-	return fmt.Sprintf("pl %s %d b%dk%sp%s r%sd%st%s %d %d %s", shapeString(c.shape), c.nmsgs, c.buf, b01(c.blocking), b01(c.persistent),
+	return fmt.Sprintf("pl %s %d b%dk%sp%s r%sd%st%s %d %d %s", shapeString(c.shape, c.widths...), c.nmsgs, c.buf, b01(c.blocking), b01(c.persistent),
 		b01(c.perStage), b01(c.decorator), b01(c.tap), c.yield, c.seed, fs)
 }
 
-func parseShape(s string) ([][]int, error) {
+func parseShape(s string) ([][]int, []int, error) {
 	if s == "-" {
-		return nil, nil
+		return nil, nil, nil
 	}
 	var sh [][]int
+	var widths []int
 	for _, row := range strings.Split(s, "/") {
+		w := 1
+		if i := strings.Index(row, "x"); i >= 0 {
+			var err error
+			if w, err = strconv.Atoi(row[i+1:]); err != nil || w < 1 || w > 8 {
+				return nil, nil, fmt.Errorf("bad width in %q", row)
+			}
+			row = row[:i]
+		}
 		var r []int
 		for _, x := range strings.Split(row, ",") {
 			v, err := strconv.Atoi(x)
 			if err != nil {
-				return nil, err
+				return nil, nil, err
 			}
 			r = append(r, v)
 		}
 		sh = append(sh, r)
+		widths = append(widths, w)
 	}
-	return sh, nil
+	return sh, widths, nil
 }
 
 func parseCfg(line string) (caseCfg, error) {
@@ -118,7 +157,7 @@ func parseCfg(line string) (caseCfg, error) {
 		return c, fmt.Errorf("bad request %q", line)
 	}
 	var err error
-	if c.shape, err = parseShape(f[1]); err != nil {
+	if c.shape, c.widths, err = parseShape(f[1]); err != nil {
 		return c, err
 	}
 	if c.nmsgs, err = strconv.Atoi(f[2]); err != nil {
@@ -146,7 +185,12 @@ func parseCfg(line string) (caseCfg, error) {
 				return c, fmt.Errorf("bad fault %q", x)
 			}
 			fs.kind = x[:at]
-			if _, err = fmt.Sscanf(x[at+1:], "%d.%d", &fs.stage, &fs.call); err != nil {
+			if fs.kind == "px" {
+				_, err = fmt.Sscanf(x[at+1:], "%d.%d.%d", &fs.stage, &fs.call, &fs.pos)
+			} else {
+				_, err = fmt.Sscanf(x[at+1:], "%d.%d", &fs.stage, &fs.call)
+			}
+			if err != nil {
 				return c, err
 			}
 			c.faults = append(c.faults, fs)
@@ -185,8 +229,17 @@ func (c caseCfg) validate() error {
 		return errors.New("stage 0 must only be fed by the source")
 	}
 	for _, f := range c.faults {
-		if f.stage < 0 || f.stage >= n || f.call < 1 || !strings.Contains(" he hp pe pp pa ", " "+f.kind+" ") {
+		if f.stage < 0 || f.stage >= n || f.call < 1 || !strings.Contains(" he hp pe pp pa px ", " "+f.kind+" ") {
 			return fmt.Errorf("bad fault %+v", f)
+		}
+		if f.kind == "px" && (f.pos < 0 || f.pos >= c.width(f.stage)) {
+			return fmt.Errorf("bad output position in %+v", f)
+		}
+	}
+	for s, row := range c.shape {
+		// derived lineages are only defined along a chain (one path from the source to every stage)
+		if c.leaves() > 1 && len(row) != 1 {
+			return fmt.Errorf("stage %d: multi-output stages are supported in chains only", s)
 		}
 	}
 	if c.nmsgs < 0 || c.nmsgs > 1000 {
@@ -221,6 +274,7 @@ func (c caseCfg) inTopic(t int) string {
 
 type invRec struct {
 	stage, lin int
+	ord        int // this is the ord-th handler invocation of its stage
 	msg        *message.Message
 }
 
@@ -286,7 +340,7 @@ func (r *rec) yield() {
 // Called with r.mu held.
 func (r *rec) faultFor(stage, call int, pub bool) string {
 	for i, f := range r.cfg.faults {
-		if r.used[i] || f.stage != stage || f.call != call {
+		if r.used[i] || f.stage != stage || f.call != call || f.kind == "px" {
 			continue
 		}
 		if pub != (f.kind[0] == 'p') {
@@ -297,6 +351,24 @@ func (r *rec) faultFor(stage, call int, pub bool) string {
 		return f.kind
 	}
 	return ""
+}
+
+// refusalFor reports whether a scripted px fault refuses a Publish call of the ord-th invocation of a stage that
+// contains the given output positions. Called with r.mu held.
+func (r *rec) refusalFor(stage, ord int, positions []int) bool {
+	for i, f := range r.cfg.faults {
+		if r.used[i] || f.kind != "px" || f.stage != stage || f.call != ord {
+			continue
+		}
+		for _, p := range positions {
+			if p == f.pos {
+				r.used[i] = true
+				r.stats["fault.px"]++
+				return true
+			}
+		}
+	}
+	return false
 }
 
 func settled(m *message.Message) bool {
@@ -344,7 +416,7 @@ func (r *rec) handler(stage int) message.HandlerFunc {
 		r.invN++
 		inv := r.invN
 		r.hcalls[stage]++
-		r.invs[inv] = &invRec{stage: stage, lin: lin, msg: msg}
+		r.invs[inv] = &invRec{stage: stage, lin: lin, ord: r.hcalls[stage], msg: msg}
 		r.log(fmt.Sprintf("hs.%d.%d.%d", stage, lin, inv))
 		f := r.faultFor(stage, r.hcalls[stage], false)
 		if f != "" {
@@ -361,10 +433,17 @@ func (r *rec) handler(stage int) message.HandlerFunc {
 		case "hp":
 			panic("scripted handler panic")
 		}
-		out := message.NewMessage(msg.UUID, msg.Payload)
-		out.Metadata.Set("lin", msg.Metadata.Get("lin"))
-		out.Metadata.Set("inv", strconv.Itoa(inv))
-		return []*message.Message{out}, nil
+		// w outputs per input; output #j carries the derived lineage lin*w+j
+		w := r.cfg.width(stage)
+		outs := make([]*message.Message, w)
+		for j := range outs {
+			d := strconv.Itoa(lin*w + j)
+			outs[j] = message.NewMessage("L"+d, msg.Payload)
+			outs[j].Metadata.Set("lin", d)
+			outs[j].Metadata.Set("inv", strconv.Itoa(inv))
+			outs[j].Metadata.Set("pos", strconv.Itoa(j))
+		}
+		return outs, nil
 	}
 }
 
@@ -378,10 +457,15 @@ func (p *faultPub) Close() error { return p.inner.Close() }
 func (p *faultPub) Publish(topic string, msgs ...*message.Message) error {
 	r := p.r
 	r.yield()
-	if len(msgs) != 1 {
+	if len(msgs) == 0 {
 		return p.inner.Publish(topic, msgs...)
 	}
+	// all messages of one call are outputs of one handler invocation
 	inv, _ := strconv.Atoi(msgs[0].Metadata.Get("inv"))
+	positions := make([]int, len(msgs))
+	for i, m := range msgs {
+		positions[i], _ = strconv.Atoi(m.Metadata.Get("pos"))
+	}
 	r.mu.Lock()
 	ir := r.invs[inv]
 	if ir == nil {
@@ -396,10 +480,13 @@ func (p *faultPub) Publish(topic string, msgs ...*message.Message) error {
 		r.log("early." + id)
 	}
 	f := r.faultFor(st, r.pcalls[st], true)
-	fan := len(r.cfg.shape[st])
+	if f == "" && r.refusalFor(st, ir.ord, positions) {
+		f = "px"
+	}
+	fan := len(r.cfg.shape[st]) * len(msgs)
 	switch f {
-	case "pe":
-		r.log("ft." + id + ".pe")
+	case "pe", "px":
+		r.log("ft." + id + "." + f)
 		r.log("pr." + id + ".err")
 		r.mu.Unlock()
 		return errors.New("scripted publish error")
@@ -423,7 +510,9 @@ func (p *faultPub) Publish(topic string, msgs ...*message.Message) error {
 		r.mu.Unlock()
 		return errors.New("scripted publish error after the message was handed on")
 	}
-	r.log("pi." + id)
+	for _, j := range positions {
+		r.log(fmt.Sprintf("pi.%s.%d", id, j))
+	}
 	r.live += fan
 	r.mu.Unlock()
 	r.yield()
@@ -434,6 +523,9 @@ func (p *faultPub) Publish(topic string, msgs ...*message.Message) error {
 		r.stats["inner-publish-error"]++
 		r.log("pr." + id + ".err")
 	} else {
+		for _, j := range positions {
+			r.log(fmt.Sprintf("po.%s.%d", id, j))
+		}
 		r.log("pr." + id + ".ok")
 	}
 	r.mu.Unlock()
@@ -654,7 +746,7 @@ func emit(out *wh.Out, c caseCfg, class string) bool {
 	}
 	out.Case(c.String()+" "+strings.Join(res.trace, " "), obs)
 	out.Count("class." + class)
-	out.Count(fmt.Sprintf("shape.%s", shapeString(c.shape)))
+	out.Count(fmt.Sprintf("shape.%s", shapeString(c.shape, c.widths...)))
 	out.Count(fmt.Sprintf("gochannel.buf%d.block%s.persist%s", c.buf, b01(c.blocking), b01(c.persistent)))
 	out.Count(fmt.Sprintf("wiring.perStageRouter%s.decorator%s.tap%s", b01(c.perStage), b01(c.decorator), b01(c.tap)))
 	out.Count(fmt.Sprintf("faults.scripted%d", len(c.faults)))
@@ -663,7 +755,7 @@ func emit(out *wh.Out, c caseCfg, class string) bool {
 	for k, v := range res.stats {
 		out.Add(k, v)
 	}
-	if d := res.stats["sink"] - c.nmsgs; d > 0 && !res.stuck {
+	if d := res.stats["sink"] - c.nmsgs*c.leaves(); d > 0 && !res.stuck {
 		out.Add("duplicates-at-sink", d)
 	}
 	if res.leftover != "" {
@@ -701,11 +793,27 @@ func placements(stages, calls int) []faultSpec {
 	for s := 0; s < stages; s++ {
 		for k := 1; k <= calls; k++ {
 			for _, kind := range kinds {
-				all = append(all, faultSpec{kind, s, k})
+				all = append(all, faultSpec{kind: kind, stage: s, call: k})
 			}
 		}
 	}
 	return all
+}
+
+// multiPlacements: refusals keyed by output position (every multi-output stage x invocation 1..pxCalls x position) plus
+// the five plain fault kinds on calls 1..calls of every stage.
+func multiPlacements(widths []int, pxCalls, calls int) []faultSpec {
+	var all []faultSpec
+	for s, w := range widths {
+		if w > 1 {
+			for k := 1; k <= pxCalls; k++ {
+				for j := 0; j < w; j++ {
+					all = append(all, faultSpec{kind: "px", stage: s, call: k, pos: j})
+				}
+			}
+		}
+	}
+	return append(all, placements(len(widths), calls)...)
 }
 
 // subsets enumerates all subsets of size <= max (in a fixed order).
@@ -752,9 +860,35 @@ func randomCase(rng *wh.Rng, maxStages int) caseCfg {
 	}
 	c.nmsgs = 1 + rng.Intn(5)
 	randomWiring(rng, &c)
+	// a third of the chains have stages that emit 2..3 outputs per input (at most 6 derived lineages per source lineage)
+	isChain := true
+	for _, row := range c.shape {
+		if len(row) != 1 {
+			isChain = false
+		}
+	}
+	if isChain && rng.Intn(3) == 0 {
+		c.widths = make([]int, len(c.shape))
+		prod := 1
+		for s := range c.widths {
+			c.widths[s] = []int{1, 2, 2, 3}[rng.Intn(4)]
+			if prod*c.widths[s] > 6 {
+				c.widths[s] = 1
+			}
+			prod *= c.widths[s]
+		}
+		if c.nmsgs > 3 {
+			c.nmsgs = 3
+		}
+	}
 	nf := rng.Intn(9)
 	for i := 0; i < nf; i++ {
-		c.faults = append(c.faults, faultSpec{kinds[rng.Intn(len(kinds))], rng.Intn(len(c.shape)), 1 + rng.Intn(6)})
+		st := rng.Intn(len(c.shape))
+		if w := c.width(st); w > 1 && rng.Intn(2) == 0 {
+			c.faults = append(c.faults, faultSpec{kind: "px", stage: st, call: 1 + rng.Intn(4), pos: rng.Intn(w)})
+			continue
+		}
+		c.faults = append(c.faults, faultSpec{kind: kinds[rng.Intn(len(kinds))], stage: st, call: 1 + rng.Intn(6)})
 	}
 	return c
 }
@@ -790,6 +924,27 @@ func main() {
 		}
 	}
 	out.Add("wall_ms.exhaustive2", int(time.Since(t0).Milliseconds()))
+	// 1b. stages that emit 2..3 outputs per input: every placement of <= 2 faults among {refuse the call containing output #j of the
+	//     k-th invocation} and the plain kinds, on chains of <= 2 stages with <= 2 messages
+	t1b := time.Now()
+	multi := [][]int{{2}, {3}, {2, 1}, {1, 2}}
+	pxCalls, plainCalls := 2, 1
+	if a.Thorough() {
+		multi = append(multi, []int{2, 2}, []int{1, 2, 1}, []int{3, 2})
+		pxCalls, plainCalls = 3, 2
+	}
+	for _, widths := range multi {
+		for msgs := 1; msgs <= 2; msgs++ {
+			for _, fs := range subsets(multiPlacements(widths, pxCalls, plainCalls), 2) {
+				c := caseCfg{shape: chain(len(widths)), widths: widths, nmsgs: msgs, faults: fs}
+				randomWiring(rng, &c)
+				if !emit(out, c, "exhaustive2-multi-output") {
+					return
+				}
+			}
+		}
+	}
+	out.Add("wall_ms.exhaustive2-multi-output", int(time.Since(t1b).Milliseconds()))
 	// 2. thorough: every placement of <= 3 faults on the chain of 3 stages (calls 1..3), 2 messages
 	if a.Thorough() {
 		t1 := time.Now()
